@@ -188,9 +188,7 @@
         D13, WF23), no declaration of a predefined entity name, distinct general-entity names and distinct notation
         names (WF22), public identifiers in normalized form (WF17) --: [check_doc (x_doc pd) = inr root], and when the
         expanded tree is good ([tree_good (attrs_okb subset) root]: no reference to an external parsed entity; at
-        every element no #REQUIRED definition without a specified attribute (D36) and no default value for a
-        SPECIFIED namespace declaration (finding of this round: Element::attributes tests the defaults against
-        attributes_specified(), which leaves the namespace declarations out, and lists `xmlns:p` twice)),
+        every element no #REQUIRED definition without a specified attribute (D36)),
             dom_view false doc = doc_tokens (x_doc pd) root      dom_view true doc = doc_tokens2 (x_doc pd) root.
         Notations and unparsed entities (Rust's sort of (name, token) rows = the specification's sort by name),
         PIs of the internal subset, identifiers; general entities referenced in content
@@ -204,10 +202,15 @@
             no_predefined_redeclared d -> accepted_profile d -> Known_C01 d = false ->
             from_raw (render d c) = OOk ([], doc) -> dom_view true doc = denote d /\ dom_view false doc = denote d
         where [Known_C01 d = Known_WF14 d || Known_ATTR d] is decidable on d: [Known_ATTR d] says that the canonical
-        tree of d is not good in the sense above (D36 or the doubled namespace declaration).  The other listed findings
+        tree of d is not good in the sense above (D36).  The other listed findings
         need no clause: [valid] already demands entity values without markup (D13, WF23), distinct entity names
         (WF22) and normalized public identifiers (WF17); [accepted_profile] excludes the external subset (WF24);
         [render] writes no literal carriage return into character data, attribute values, comments or PIs (WF16).
+        D65 (found by this model, repaired in /repo 703c414): Element::attributes tested the defaults against
+        attributes_specified(), which leaves the namespace declarations out, so a namespace declaration that is written
+        on the element and has a default (<!ATTLIST a xmlns:p CDATA "u"> with <a xmlns:p="v"/>) was listed twice.  The model
+        follows the repaired code ([add_defaults] also looks at namespace_attributes()); the shape is inside the theorem
+        now ([dom_view_nsdefault]).
     Not proved: renderings with carriage returns in white space for (m) (they are covered by (n) on the side of
     the model, which does not go through [infoset_of_string]); (n) for strings whose entity values hold markup.
     This is covered by checks/C01.py, which evaluates wf (render d c) and
@@ -544,7 +547,7 @@ Definition ex_required : adoc :=
      a_doctype := Some {| ad_name := [97]%N; ad_pub := None; ad_sys := None;
        ad_subset := Some [ADAttlist [97]%N [([107]%N, ATCData, DfRequired)]] |};
      a_misc2 := []; a_root := AElem [97]%N [] []; a_misc3 := [] |}.
-(* a namespace declaration that is specified and has a default *)
+(* a namespace declaration that is specified and has a default: D65, repaired in 703c414, inside the theorem now *)
 Definition ex_nsdefault : adoc :=
   {| a_version := None; a_encoding := None; a_standalone := None; a_misc1 := [];
      a_doctype := Some {| ad_name := [97]%N; ad_pub := None; ad_sys := None;
@@ -555,7 +558,7 @@ Example dom_view_nonvacuous :
   valid ex_adoc_dtd = true /\ no_predefined_redeclared ex_adoc_dtd = true /\ accepted_profile ex_adoc_dtd = true
   /\ DomViewC01.Known_C01 ex_adoc_dtd = false
   /\ (valid ex_required = true /\ DomViewC01.Known_C01 ex_required = true)
-  /\ (valid ex_nsdefault = true /\ DomViewC01.Known_C01 ex_nsdefault = true).
+  /\ (valid ex_nsdefault = true /\ no_predefined_redeclared ex_nsdefault = true /\ accepted_profile ex_nsdefault = true /\ DomViewC01.Known_C01 ex_nsdefault = false).
 Proof. repeat split; vm_compute; reflexivity. Qed.
 
 Example dom_view_doctype_nonvacuous :
@@ -569,14 +572,17 @@ Proof.
   exact (C01_dom_view_is_denote_partial ex_adoc_dtd (fun p => (7 * N.of_nat (length p)) mod 5)%N doc Hv Hn Ha Hk Hdoc).
 Qed.
 
-(* on the two excluded shapes the statement fails: the model (and the real crates) expose another information set *)
+(* on the excluded shape the statement fails: the model (and the real crates) expose another information set *)
 Theorem C01_dom_view_refuted_required : exists doc, Info.from_raw (render ex_required (fun _ => 0%N)) = Info.OOk ([], doc)
   /\ DomView.dom_view true doc <> Infoset.denote ex_required.
 Proof. eexists. split; [vm_compute; reflexivity|]. vm_compute. intros E. discriminate E. Qed.
 
-Theorem C01_dom_view_refuted_nsdefault : exists doc, Info.from_raw (render ex_nsdefault (fun _ => 0%N)) = Info.OOk ([], doc)
-  /\ DomView.dom_view true doc <> Infoset.denote ex_nsdefault.
-Proof. eexists. split; [vm_compute; reflexivity|]. vm_compute. intros E. discriminate E. Qed.
+Example dom_view_nsdefault : forall c doc, Info.from_raw (render ex_nsdefault c) = Info.OOk ([], doc) ->
+  DomView.dom_view true doc = Infoset.denote ex_nsdefault /\ DomView.dom_view false doc = Infoset.denote ex_nsdefault.
+Proof.
+  intros c doc H. assert (Hk : DomViewC01.Known_C01 ex_nsdefault = false) by (vm_compute; reflexivity).
+  apply (C01_dom_view_is_denote_partial ex_nsdefault c doc); [vm_compute; reflexivity|vm_compute; reflexivity|vm_compute; reflexivity|exact Hk|exact H].
+Qed.
 
 Example dom_view_nodoctype_nonvacuous :
   valid ex_adoc = true /\ a_doctype ex_adoc = None /\ DomViewRender.Known_WF14 ex_adoc = false
@@ -629,4 +635,3 @@ Print Assumptions C01_dom_view_is_denote_nodoctype_partial.
 Print Assumptions dom_view_is_infoset_doctype_partial.
 Print Assumptions C01_dom_view_is_denote_partial.
 Print Assumptions C01_dom_view_refuted_required.
-Print Assumptions C01_dom_view_refuted_nsdefault.
